@@ -186,7 +186,7 @@ def corner_population(date, rnd, tid):
     if mode == "many_children":
         a = popgen.rec(partner=2, spouse=2, gv=True)
         b = popgen.rec(partner=1, spouse=1, gv=True)
-        nk = rnd.choice([6, 10])
+        nk = 10 if tid % 2 == 0 else rnd.choice([6, 8])
         if tid % 2 == 0:
             s = [a, b] + [popgen.rec(age=24, e1=1, e2=2) for _ in range(nk)]
         else:   # a single parent with many children
@@ -199,6 +199,9 @@ def corner_population(date, rnd, tid):
             p["bruttolohn_m"] = 0.0
         if tid % 2 == 1:
             P[0]["alleinerz"] = True
+        # the parents are in regular employment (child-related discounts of contributions apply to them)
+        for p, w in zip(P[: (2 if tid % 2 == 0 else 1)], (3000.0, 1500.0)):
+            p.update({"bruttolohn_m": w, "arbeitsstunden_w": 38.0, "rentner": False, "voll_erwerbsgemind": False, "teilw_erwerbsgemind": False, "selbstständig": False, "in_priv_krankenv": False, "alter": 42, "geburtsjahr": gs.year_of(date) - 42})
     if mode == "parental_leave_high_earner":
         # a parent on leave without current earnings, very high net income before the birth, small siblings (sibling bonus
         # and multiple-birth bonus range), previous year's taxable income below the eligibility limit
